@@ -782,3 +782,132 @@ Lemma centroid_spec pl :
        vsum ROps (map (fun s => vscale ROps (seg_len ROps s) (vscale ROps (1 / 2) (vadd ROps (fst s) (snd s)))) (pl_segments pl))) /\
   (total_length ROps pl = 0 -> path_centroid ROps pl = Raise ZeroDivisionError).
 Proof. exact (proj2 (proj2 (lengths_sum_centroid pl))). Qed.
+
+(* ---- second audit: totality of path_centroid, the insertions of edge k, distinctness of the reported indices ---- *)
+Lemma path_centroid_total pl : total_length ROps pl <> 0 -> exists c, path_centroid ROps pl = Ok c.
+Proof.
+  intros H. unfold path_centroid, path_centroid_segs, total_length in *. rops. unfold n0. rops.
+  destruct (Reqb_spec (nsum ROps (map (seg_len ROps) (pl_segments pl))) 0); [contradiction|eauto].
+Qed.
+Lemma centroid_spec_total pl :
+  0 <= total_length ROps pl /\
+  (forall c, path_centroid ROps pl = Ok c ->
+     total_length ROps pl <> 0 /\
+     vscale ROps (total_length ROps pl) c =
+       vsum ROps (map (fun s => vscale ROps (seg_len ROps s) (vscale ROps (1 / 2) (vadd ROps (fst s) (snd s)))) (pl_segments pl))) /\
+  (total_length ROps pl <> 0 -> exists c, path_centroid ROps pl = Ok c) /\
+  (total_length ROps pl = 0 -> path_centroid ROps pl = Raise ZeroDivisionError).
+Proof.
+  destruct (centroid_spec pl) as [H1 [H2 H3]]. exact (conj H1 (conj H2 (conj (path_centroid_total pl) H3))).
+Qed.
+
+Lemma inserts_per_vertex_nth pl mx m k b s : nth_error m k = Some b -> nth_error (pl_segments pl) k = Some s ->
+  nth_error (inserts_per_vertex ROps pl mx m) k = Some (edge_inserts ROps mx b s).
+Proof.
+  intros Hb Hs. unfold inserts_per_vertex.
+  assert (Hm : nth_error (map2 (edge_inserts ROps mx) m (pl_segments pl)) k = Some (edge_inserts ROps mx b s))
+    by (rewrite nth_error_map2, Hb, Hs; reflexivity).
+  rewrite nth_error_app1; [exact Hm|]. apply nth_error_Some. congruence.
+Qed.
+(* the last vertex of an open polyline has no leaving edge: nothing is inserted after it *)
+Lemma inserts_per_vertex_last pl mx m h t : pv pl = h :: t -> pclosed pl = false -> length m = length (pl_segments pl) ->
+  nth_error (inserts_per_vertex ROps pl mx m) (length t) = Some [].
+Proof.
+  intros E Hc Hl. unfold inserts_per_vertex. rewrite Hc, E.
+  assert (Hlen : length (map2 (edge_inserts ROps mx) m (pl_segments pl)) = length t).
+  { unfold map2. rewrite map_length, zip_length, Hl, Nat.min_id, pl_segments_length, E, Hc. reflexivity. }
+  rewrite nth_error_app2 by lia. rewrite Hlen, Nat.sub_diag. reflexivity.
+Qed.
+
+(* blocks of the new vertex list: the points inserted before vertex q occupy [slot q, orig q), vertex q sits at orig q *)
+Definition count_lt (ips : list (nat * vec3 R)) (q : nat) : nat := length (filter (fun ip => Nat.ltb (fst ip) q) ips).
+Lemma count_le_lt (ips : list (nat * vec3 R)) q : count_le ips q = (count_lt ips q + length (points_at q ips))%nat.
+Proof. unfold count_le, count_lt. apply count_le_split. Qed.
+Lemma count_lt_succ (ips : list (nat * vec3 R)) q : count_lt ips (S q) = count_le ips q.
+Proof. reflexivity. Qed.
+Lemma orig_before_slot (ips : list (nat * vec3 R)) : forall q' q, (q < q')%nat -> (q + count_le ips q < q' + count_lt ips q')%nat.
+Proof.
+  induction q' as [|q' IH]; intros q H; [lia|]. rewrite count_lt_succ.
+  destruct (Nat.eq_dec q q') as [->|Hne]; [lia|].
+  specialize (IH q ltac:(lia)). pose proof (count_le_lt ips q'). lia.
+Qed.
+Lemma count_firstn_mono {A} (f : A -> bool) (l : list A) : forall j j', (j <= j')%nat ->
+  (length (filter f (firstn j l)) <= length (filter f (firstn j' l)))%nat.
+Proof.
+  induction l as [|x r IH]; intros j j' H; [destruct j, j'; cbn; lia|].
+  destruct j as [|j]; [cbn; lia|]. destruct j' as [|j']; [lia|]. cbn [firstn filter].
+  specialize (IH j j' ltac:(lia)). destruct (f x); cbn [length]; lia.
+Qed.
+Lemma count_firstn_S {A} (f : A -> bool) (l : list A) : forall j x, nth_error l j = Some x -> f x = true ->
+  length (filter f (firstn (S j) l)) = S (length (filter f (firstn j l))).
+Proof.
+  induction l as [|y r IH]; intros j x Hj Hf; [destruct j; discriminate|].
+  destruct j as [|j]; cbn [nth_error] in Hj.
+  - injection Hj as ->. cbn [firstn filter]. rewrite Hf. reflexivity.
+  - specialize (IH j x Hj Hf). cbn [firstn filter] in *. destruct (f y); cbn [length]; lia.
+Qed.
+Lemma rank_bound (ips : list (nat * vec3 R)) j q p : nth_error ips j = Some (q, p) ->
+  (length (filter (fun ip => Nat.eqb (fst ip) q) (firstn j ips)) < length (points_at q ips))%nat.
+Proof. intros H. apply nth_error_Some. rewrite (points_at_rank q p ips j H). discriminate. Qed.
+Lemma rank_strict (ips : list (nat * vec3 R)) j j' q p : (j < j')%nat -> nth_error ips j = Some (q, p) ->
+  (length (filter (fun ip : nat * vec3 R => Nat.eqb (fst ip) q) (firstn j ips)) <
+   length (filter (fun ip : nat * vec3 R => Nat.eqb (fst ip) q) (firstn j' ips)))%nat.
+Proof.
+  intros Hlt Hj.
+  pose proof (count_firstn_S (fun ip : nat * vec3 R => Nat.eqb (fst ip) q) ips j (q, p) Hj (Nat.eqb_refl q)) as HS.
+  pose proof (count_firstn_mono (fun ip : nat * vec3 R => Nat.eqb (fst ip) q) ips (S j) j' ltac:(lia)). lia.
+Qed.
+Lemma inserted_pos_block (ips : list (nat * vec3 R)) j q p : nth_error ips j = Some (q, p) ->
+  (q + count_lt ips q <= inserted_pos ips j q < q + count_le ips q)%nat.
+Proof.
+  intros H. pose proof (rank_bound ips j q p H). pose proof (count_le_lt ips q).
+  unfold inserted_pos. fold (count_lt ips q). lia.
+Qed.
+
+Lemma nth_error_seq_inv a n k x : nth_error (seq a n) k = Some x -> x = (a + k)%nat /\ (k < n)%nat.
+Proof.
+  revert a k. induction n as [|n IH]; intros a k H; [destruct k; discriminate|].
+  destruct k as [|k]; cbn [seq nth_error] in H; [injection H as <-; lia|].
+  destruct (IH (S a) k H). lia.
+Qed.
+
+(* the reported new indices are pairwise distinct: originals among themselves, inserted points among themselves
+   (also when a segment is listed twice), and originals against inserted points *)
+Lemma bisect_indices_distinct pl idx r : bisect ROps pl idx = Ok r ->
+  (forall k k' i i', k <> k' -> nth_error (snd (fst r)) k = Some i -> nth_error (snd (fst r)) k' = Some i' -> i <> i') /\
+  (forall j j' m m', j <> j' -> nth_error (snd r) j = Some m -> nth_error (snd r) j' = Some m' -> m <> m') /\
+  (forall k j i m, nth_error (snd (fst r)) k = Some i -> nth_error (snd r) j = Some m -> i <> m).
+Proof.
+  intros H. unfold bisect in H. destruct (existsb _ idx); [discriminate|]. injection H as <-. cbn [fst snd].
+  set (ips := map (fun i => (edge_end pl i, match nth_error (pl_segments pl) i with Some s => seg_mid ROps s | None => vzero ROps end)) idx).
+  assert (Horig : forall k i, nth_error (map (fun k0 => (k0 + count_le ips k0)%nat) (seq 0 (length (pv pl)))) k = Some i ->
+                    i = (k + count_le ips k)%nat).
+  { intros k i Hk. rewrite nth_error_map in Hk. destruct (nth_error (seq 0 (length (pv pl))) k) as [x|] eqn:E; [|discriminate].
+    apply nth_error_seq_inv in E. destruct E as [-> _]. injection Hk as <-. reflexivity. }
+  assert (Hins : forall j m, nth_error (map (fun jip => inserted_pos ips (fst jip) (fst (snd jip))) (combine (seq 0 (length ips)) ips)) j = Some m ->
+                   exists q p, nth_error ips j = Some (q, p) /\ m = inserted_pos ips j q).
+  { intros j m Hj. destruct (nth_error ips j) as [[q p]|] eqn:E.
+    - rewrite nth_error_map, (nth_error_combine_seq ips 0%nat j _ E) in Hj. injection Hj as <-. exists q, p. split; reflexivity.
+    - exfalso. apply nth_error_None in E. assert (Hl : (j < length (combine (seq 0 (length ips)) ips))%nat).
+      { apply nth_error_Some. rewrite nth_error_map in Hj. destruct (nth_error (combine (seq 0 (length ips)) ips) j); [discriminate|discriminate]. }
+      rewrite combine_length, seq_length in Hl. lia. }
+  split; [|split].
+  - intros k k' i i' Hne Hk Hk'. rewrite (Horig k i Hk), (Horig k' i' Hk').
+    destruct (Nat.lt_ge_cases k k') as [Hlt|Hge].
+    + pose proof (orig_before_slot ips k' k Hlt). pose proof (count_le_lt ips k'). lia.
+    + pose proof (orig_before_slot ips k k' ltac:(lia)). pose proof (count_le_lt ips k). lia.
+  - intros j j' m m' Hne Hj Hj'. destruct (Hins j m Hj) as [q [p [Eq ->]]]. destruct (Hins j' m' Hj') as [q' [p' [Eq' ->]]].
+    pose proof (inserted_pos_block ips j q p Eq) as B. pose proof (inserted_pos_block ips j' q' p' Eq') as B'.
+    destruct (Nat.lt_trichotomy q q') as [Hlt|[->|Hgt]].
+    + pose proof (orig_before_slot ips q' q Hlt). lia.
+    + unfold inserted_pos. destruct (Nat.lt_ge_cases j j') as [Hl|Hg].
+      * pose proof (rank_strict ips j j' q' p Hl Eq). lia.
+      * pose proof (rank_strict ips j' j q' p' ltac:(lia) Eq'). lia.
+    + pose proof (orig_before_slot ips q q' Hgt). lia.
+  - intros k j i m Hk Hj. rewrite (Horig k i Hk). destruct (Hins j m Hj) as [q [p [Eq ->]]].
+    pose proof (inserted_pos_block ips j q p Eq) as B.
+    destruct (Nat.lt_trichotomy k q) as [Hlt|[->|Hgt]].
+    + pose proof (orig_before_slot ips q k Hlt). lia.
+    + lia.
+    + pose proof (orig_before_slot ips k q Hgt). pose proof (count_le_lt ips k). lia.
+Qed.
